@@ -301,6 +301,15 @@ pub axiom fn axiom_punctuated_len<T, P>(p: &syn::punctuated::Punctuated<T, P>)
 pub assume_specification<T, P>[ syn::punctuated::Punctuated::<T, P>::first ](p: &syn::punctuated::Punctuated<T, P>) -> (r: Option<&T>)
     ensures pseq(p).len() == 0 ==> r is None,
             pseq(p).len() > 0 ==> r == Some(&pseq(p)[0]);
+/// `insert` panics when `index > len` (syn asserts it); the precondition makes every verified caller prove it cannot
+pub assume_specification<T, P: core::default::Default>[ syn::punctuated::Punctuated::<T, P>::insert ](p: &mut syn::punctuated::Punctuated<T, P>, index: usize, value: T)
+    requires index <= pseq(old(p)).len(),
+    ensures pseq(final(p)) == pseq(old(p)).insert(index as int, value);
+/// the returned borrow is the first element; whatever it holds when the borrow ends is the list's new first element
+pub assume_specification<T, P>[ syn::punctuated::Punctuated::<T, P>::first_mut ](p: &mut syn::punctuated::Punctuated<T, P>) -> (r: Option<&mut T>)
+    ensures pseq(old(p)).len() == 0 ==> r is None && *final(p) == *old(p),
+            pseq(old(p)).len() > 0 ==> r is Some && *r->Some_0 == pseq(old(p))[0]
+                && pseq(final(p)) == pseq(old(p)).update(0, *final(r->Some_0));
 pub assume_specification<T, P>[ syn::punctuated::Punctuated::<T, P>::is_empty ](p: &syn::punctuated::Punctuated<T, P>) -> (r: bool)
     ensures r == (pseq(p).len() == 0);
 pub assume_specification<T, P>[ syn::punctuated::Punctuated::<T, P>::len ](p: &syn::punctuated::Punctuated<T, P>) -> (r: usize)
@@ -450,6 +459,7 @@ pub assume_specification<'a, T, P>[ <syn::punctuated::Pairs<'a, T, P> as core::i
 
 verus! {
 // ------------------------------------------------------------------ Clone of syntax nodes is the identity on the abstract value
+pub assume_specification[ <syn::Lifetime as core::clone::Clone>::clone ](x: &syn::Lifetime) -> (r: syn::Lifetime) ensures r == *x;
 pub assume_specification[ <syn::Type as core::clone::Clone>::clone ](x: &syn::Type) -> (r: syn::Type) ensures r == *x;
 pub assume_specification[ <syn::GenericParam as core::clone::Clone>::clone ](x: &syn::GenericParam) -> (r: syn::GenericParam) ensures r == *x;
 pub assume_specification[ <syn::WherePredicate as core::clone::Clone>::clone ](x: &syn::WherePredicate) -> (r: syn::WherePredicate) ensures r == *x;
